@@ -409,11 +409,11 @@ class Hist05:
                         if (b + bytes(bs - len(b)))[:L] == wpad[:L]:
                             lens.add(len(b))
             if not any(wpad):
-                why.append('block %d: zeros rebuilt (the position was empty in the parity); the recorded past hash is a data hash, not the ZERO marker (overwritten by the skipped sync)' % i); keys.add(KEY_A)
+                why.append('block %d: zeros rebuilt (the position was empty in the parity) and accepted: the recorded past hash is a data hash, not the ZERO marker (signature of the repaired F-C05a)' % i); keys.add(KEY_A)
             elif not lens:
                 why.append('block %d: CHG with a unique past hash received bytes that belong to no stored version' % i); keys.add(None)
             elif L in lens:
-                why.append('block %d: old data of the same length rebuilt; the recorded past hash is not its hash (overwritten by the skipped sync)' % i); keys.add(KEY_A)
+                why.append('block %d: old data of the same length rebuilt and accepted: the recorded past hash is not the hash of what the parity encodes there (signature of the repaired F-C05a)' % i); keys.add(KEY_A)
             else:
                 why.append('block %d: old data of block length %s rebuilt and compared with the past hash over the new length %d' % (i, sorted(lens), L)); keys.add(KEY_B)
         return keys, why
